@@ -131,6 +131,11 @@ Inv_MergeAll ==
   Done => LET m == MergeAll(fonts, ign, idf, bug)
           IN merged.names = m.names /\ merged.cmap = m.cmap /\ merged.adv = m.adv /\ merged.out = m.out
              /\ merged.maxp = m.maxp /\ merged.L = m.L
+Inv_MergeAllSmall ==      \* the same on the small families only (quick tier)
+  (Done /\ (target = 3 \/ idf \/ bug # "none")) =>
+     LET m == MergeAll(fonts, ign, idf, bug)
+     IN merged.names = m.names /\ merged.cmap = m.cmap /\ merged.adv = m.adv /\ merged.out = m.out
+        /\ merged.maxp = m.maxp /\ merged.L = m.L
 (* identification (idf) only ever concerns equal glyphs, and an identified duplicate is not separately reachable *)
 Inv_IdentifyOnlySame ==
   pc \in {"tables", "layout", "post", "done"} =>
